@@ -149,6 +149,12 @@ def reshape(req):
         raise webob.exc.HTTPConflict(
             'Unable to allocate inventory: %(error)s' % {'error': exc})
 
+    # An empty set of allocations for a consumer that did not exist yet writes
+    # nothing: do not keep the consumer records created for such entries.
+    allocation.delete_consumers(
+        [consumer for consumer in new_consumers_created
+         if not allocations[consumer.uuid]['allocations']])
+
     req.response.status = 204
     req.response.content_type = None
     return req.response
